@@ -490,6 +490,18 @@ def execute(cfg, extra_next=3, want_trace=False, action_hook=None):
                     mon.check_observers()
                     if stops >= extra_next:
                         break
+                    if cfg.get("iter") == "loops":
+                        # a further `for action in schedule:` loop over a schedule that has concluded
+                        # must yield nothing: the iterator is obtained anew after every StopIteration
+                        src = None
+                        gc.collect()
+                        try:
+                            src = quiet(iter, sched)
+                        except CaseTimeout:
+                            raise
+                        except Exception as e:
+                            mon.v("C17", "valid-config-raises:iter", "iter(schedule) raised %s: %s" % (type(e).__name__, e))
+                            src = sched
                     continue
                 except CaseTimeout:
                     raise
